@@ -181,6 +181,8 @@ def check(F, R, Gm):
     # ---- H-INTOEXP ---------------------------------------------------------------
     h_intoexp(F, R)
     g_tags(R, Gm, F)
+    import c09rt
+    c09rt.check(F, R, Gm)
 
 
 def h_implicit(F, R):
